@@ -29,6 +29,7 @@ TECHNIQUE = ("static analysis: CFG cycle/reaching-definition alias rule (R9), no
 
 HU = "immutable.happiness_upload"
 UP = "immutable.upload"
+MAXG = HU + ":_compute_maximum_graph"
 SWEEP_MODULES = ("allmydata.immutable.happiness_upload", "allmydata.util.happinessutil", "allmydata.immutable.upload")
 
 
@@ -487,6 +488,522 @@ def fact_gate(fnorm, want):
             f = fnorm.edge_fact(n, lab)
         return bool(f) and bool(want(*f))
     return g
+
+
+# ===================================== Edmonds-Karp copy used by the placement
+# (the same necessary conditions that C08 decides for "both copies"; the matching computed by
+# happiness_upload._compute_maximum_graph IS the placement, so C07 decides them for that copy itself)
+def nested_subscript(t):
+    """x[a][b] -> (x, a, b) for plain-name x."""
+    if isinstance(t, ast.Subscript) and isinstance(t.value, ast.Subscript) and isinstance(t.value.value, ast.Name):
+        return t.value.value.id, t.value.slice, t.slice
+    return None
+
+
+def flow_store(n):
+    """(table, row, col, sign, delta) when CFG node n stores into x[a][b]: `x[a][b] += d` / `x[a][b] -= d` /
+    `x[a][b] = x[a][b] + d` / `x[a][b] = d + x[a][b]` / `x[a][b] = x[a][b] - d`; sign None for another store."""
+    if n.kind != "stmt":
+        return None
+    a = n.ast
+    if isinstance(a, ast.AugAssign):
+        ns = nested_subscript(a.target)
+        if ns:
+            sign = 1 if isinstance(a.op, ast.Add) else (-1 if isinstance(a.op, ast.Sub) else None)
+            return (ns[0], ns[1], ns[2], sign, a.value)
+    if isinstance(a, ast.Assign):
+        for t in a.targets:
+            ns = nested_subscript(t)
+            if not ns:
+                continue
+            v, tn = a.value, norm_plain(t)
+            if isinstance(v, ast.BinOp) and isinstance(v.op, (ast.Add, ast.Sub)):
+                if norm_plain(v.left) == tn:
+                    return (ns[0], ns[1], ns[2], 1 if isinstance(v.op, ast.Add) else -1, v.right)
+                if isinstance(v.op, ast.Add) and norm_plain(v.right) == tn:
+                    return (ns[0], ns[1], ns[2], 1, v.left)
+            return (ns[0], ns[1], ns[2], None, v)
+    return None
+
+
+def distinct_rows(e) -> bool:
+    """A 2-D table expression creates one fresh row object per row."""
+    if isinstance(e, ast.ListComp):
+        return fresh_mutable(e.elt) or (isinstance(e.elt, ast.BinOp) and isinstance(e.elt.op, ast.Mult)
+                                        and any(isinstance(s, ast.List) for s in (e.elt.left, e.elt.right)))
+    return False
+
+
+def loads_of(n):
+    out = set()
+    for e in node_exprs(n):
+        for x in own_nodes(e, into_lambda=True):
+            if isinstance(x, ast.Name) and isinstance(x.ctx, ast.Load):
+                out.add(x.id)
+    return out
+
+
+def same_block(fn, a, b) -> bool:
+    """Two simple statements of fn sit in the same statement list."""
+    def lists(stmts):
+        yield stmts
+        for st in stmts:
+            for field in ("body", "orelse", "finalbody"):
+                sub = getattr(st, field, None)
+                if isinstance(sub, list) and sub and isinstance(sub[0], ast.stmt):
+                    for l in lists(sub):
+                        yield l
+    for l in lists(fn.body):
+        if any(s is a for s in l) and any(s is b for s in l):
+            return True
+    return False
+
+
+class EK:
+    """Names and nodes of one Edmonds-Karp loop: the recomputations `rg, rf = residual_network(net, f)`, the stores
+    into the flow table f[.][.], the residual pair (rg, rf)."""
+
+    def __init__(self, fn):
+        self.fn = fn
+        self.cfg = cfg = fn.cfg()
+        self.fl = Flow(fn)
+        self.rec = [n for n in cfg.stmt_nodes() if n.kind == "stmt" and isinstance(n.ast, ast.Assign)
+                    and isinstance(n.ast.value, ast.Call) and call_tail(n.ast.value) == "residual_network"]
+        if not self.rec:
+            raise AnchorVanished("%s: no `.. = residual_network(..)`" % fn.qual)
+        pairs = set()
+        for n in self.rec:
+            t = n.ast.targets[0]
+            if len(n.ast.targets) == 1 and isinstance(t, (ast.Tuple, ast.List)) and len(t.elts) == 2 \
+                    and all(isinstance(e, ast.Name) for e in t.elts):
+                pairs.add((t.elts[0].id, t.elts[1].id))
+            else:
+                pairs.add(None)
+        if len(pairs) != 1 or None in pairs:
+            raise AnchorVanished("%s: residual_network result is not unpacked into one (graph, capacity) pair" % fn.qual)
+        self.rg, self.rf = pairs.pop()
+        self.stores = [(n, flow_store(n)) for n in cfg.stmt_nodes() if flow_store(n)]
+        tables = {s[0] for (_n, s) in self.stores}
+        if not tables:
+            raise AnchorVanished("%s: no store into a flow table f[u][v]" % fn.qual)
+        if len(tables) != 1:
+            raise AnchorVanished("%s: 2-D stores into several tables %s" % (fn.qual, sorted(tables)))
+        self.ff = tables.pop()
+        self.upd = [n for (n, _s) in self.stores]
+
+    def is_upd(self, n) -> bool:
+        return any(n is x for x in self.upd)
+
+    def is_rec(self, n) -> bool:
+        return any(n is x for x in self.rec)
+
+    def network_origin(self, n):
+        """Origin of the first argument of the recomputation at n (copies list(x)/tuple(x) and name copies folded)."""
+        e = arg(n.ast.value, 0, "graph")
+        at = n
+        for _ in range(8):
+            if e is None:
+                return "?"
+            e = unwrap(e, tails=("list", "tuple"))
+            if not isinstance(e, ast.Name):
+                return self.fl.origin(at, e)
+            dn, v = self.fl.unique_def(at, e.id)
+            if v is None or fresh_mutable(v) and not (isinstance(v, ast.Call) and v.args):
+                return e.id
+            at, e = dn, v
+        return "?"
+
+
+def ek_update_rule(r, fn, what):
+    """Skew-symmetric update of one Edmonds-Karp copy (sites: update loop, two deltas, flow matrix)."""
+    ek = EK(fn)
+    cfg, fl, ff, rg, rf = ek.cfg, ek.fl, ek.ff, ek.rg, ek.rf
+    loops = {}
+    for (n, s) in ek.stores:
+        enc = enclosing_for(fn, n.ast)
+        if not enc:
+            r.violation(fn, fn.loc(n.ast), "%s: %s is changed outside the loop over the augmenting path" % (what, src(fn, n.ast)))
+            continue
+        loops.setdefault(id(enc[-1]), (enc[-1], []))[1].append((n, s))
+    if not loops:
+        raise AnchorVanished("%s: loop over the augmenting path" % fn.qual)
+    for (loop, us) in loops.values():
+        r.site(fn, loop, "update loop")
+        tgt = loop.target
+        okt = isinstance(tgt, (ast.Tuple, ast.List)) and len(tgt.elts) == 2 and all(isinstance(e, ast.Name) for e in tgt.elts)
+        if not r.require(okt, fn, fn.loc(loop), "%s: the update loop does not unpack the path's edges (u, v)" % what):
+            continue
+        u, v = tgt.elts[0].id, tgt.elts[1].id
+        head = iter_node(cfg, loop)
+        it = unwrap(loop.iter, tails=("list", "tuple"))
+        pv_ = fl.unique_def(head, it.id)[1] if isinstance(it, ast.Name) else it
+        po = norm_plain(pv_) if pv_ is not None else src(fn, loop.iter)
+        r.require(po == "augmenting_path_for(%s)" % rg, fn, fn.loc(loop),
+                  "%s: the update loop runs over %s, not over the augmenting path found in %s" % (what, po, rg))
+        odd = [(n, s) for (n, s) in us if s[3] is None]
+        for (n, s) in odd:
+            r.violation(fn, fn.loc(n.ast), "%s: %s is neither `+= d` nor `-= d`" % (what, src(fn, n.ast)))
+        fwd = [(n, s) for (n, s) in us if s[3] == 1 and (norm_plain(s[1]), norm_plain(s[2])) == (u, v)]
+        rev = [(n, s) for (n, s) in us if s[3] == -1 and (norm_plain(s[1]), norm_plain(s[2])) == (v, u)]
+        rest = [(n, s) for (n, s) in us if s[3] is not None and not any(n is x for (x, _s) in fwd + rev)]
+        if not fwd:
+            r.violation(fn, fn.loc(loop), "%s: no %s[%s][%s] += d for the edge (%s, %s) of the augmenting path: the flow over "
+                        "a free edge is never raised" % (what, ff, u, v, u, v))
+        if not rev:
+            r.violation(fn, fn.loc(loop), "%s: no mirrored update %s[%s][%s] -= d for the edge (%s, %s) of the augmenting path: "
+                        "a path that goes back over an edge used earlier no longer cancels that assignment (the "
+                        "residual network keeps the edge saturated), so the matching is not maximum" % (what, ff, v, u, u, v))
+        if len(fwd) > 1 or len(rev) > 1:
+            r.violation(fn, fn.loc((fwd + rev)[0][0].ast), "%s: an edge of the path is updated more than once per direction" % what)
+        for (n, s) in rest:
+            r.violation(fn, fn.loc(n.ast), "%s: %s is not part of the pair %s[%s][%s] += d / %s[%s][%s] -= d" % (
+                what, src(fn, n.ast), ff, u, v, ff, v, u))
+        for (which, lst) in (("forward", fwd[:1]), ("mirrored", rev[:1])):
+            for (n, s) in lst:
+                w = body_skips(cfg, head, lambda x, _n=n: x is _n)
+                if w:
+                    r.violation(fn, fn.loc(n.ast), "%s: an edge of the path can be left without its %s update" % (what, which),
+                                ["L%d %r" % (cfg.nodes[i].lineno, cfg.nodes[i]) for i in w])
+                # delta = bottleneck of the same path (every residual capacity is 1, so the constant 1 is that value)
+                d = s[4]
+                r.site(fn, d, "delta (%s)" % which)
+                dv = fl.unique_def(n, d.id)[1] if isinstance(d, ast.Name) else d
+                okd = isinstance(dv, ast.Constant) and dv.value == 1 and dv.value is not True
+                if isinstance(dv, ast.Call) and isinstance(dv.func, ast.Name) and dv.func.id == "min" and len(dv.args) == 1 \
+                        and not dv.keywords and isinstance(dv.args[0], (ast.GeneratorExp, ast.ListComp)) \
+                        and len(dv.args[0].generators) == 1:
+                    ge = dv.args[0]
+                    g0 = ge.generators[0]
+                    ns = nested_subscript(ge.elt)
+                    if ns and isinstance(g0.target, (ast.Tuple, ast.List)) and len(g0.target.elts) == 2 and not g0.ifs:
+                        gu, gv = [norm_plain(e) for e in g0.target.elts]
+                        okd = ns[0] == rf and (norm_plain(ns[1]), norm_plain(ns[2])) == (gu, gv) \
+                            and norm_plain(unwrap(g0.iter, tails=("list", "tuple"))) == norm_plain(it)
+                r.require(okd, fn, fn.loc(n.ast), "%s: the %s flow changes by %s; expected min(%s[u][v] for (u, v) in <the same "
+                          "path>) (= 1): skew symmetry / the unit capacity is lost" % (
+                              what, which, src(fn, dv) if dv is not None else src(fn, d), rf))
+    # flow matrix
+    fdefs = [n for n in cfg.stmt_nodes() if n.kind == "stmt" and isinstance(n.ast, ast.Assign)
+             and [attr_path(t) for t in n.ast.targets] == [ff]]
+    if len(fdefs) != 1:
+        raise AnchorVanished("%s: single initialisation of %s" % (fn.qual, ff))
+    fv = fdefs[0].ast.value
+    r.site(fn, fv, "flow matrix")
+    r.require(distinct_rows(fv), fn, fn.loc(fv), "%s: the rows of %s are one shared object (%s): an update of one edge "
+              "would change every row" % (what, ff, src(fn, fv)))
+    if isinstance(fv, ast.ListComp):
+        net = ek.network_origin(ek.rec[-1])
+        dims = set()
+        for comp in [fv] + ([fv.elt] if isinstance(fv.elt, ast.ListComp) else []):
+            itx = comp.generators[0].iter
+            if isinstance(itx, ast.Call) and call_tail(itx) == "range" and len(itx.args) == 1:
+                dims.add(fl.origin(fdefs[0], itx.args[0]))
+            else:
+                dims.add(src(fn, itx))
+        if isinstance(fv.elt, ast.BinOp):
+            for s_ in (fv.elt.left, fv.elt.right):
+                if not isinstance(s_, ast.List):
+                    dims.add(fl.origin(fdefs[0], s_))
+        r.require(dims == {"len(%s)" % net}, fn, fn.loc(fv), "%s: flow matrix dimension %s, expected len(%s) x len(%s)" % (
+            what, sorted(dims), net, net))
+        zero = None
+        if isinstance(fv.elt, ast.ListComp):
+            zero = fv.elt.elt
+        elif isinstance(fv.elt, ast.BinOp):
+            zs = [s_ for s_ in (fv.elt.left, fv.elt.right) if isinstance(s_, ast.List) and len(s_.elts) == 1]
+            zero = zs[0].elts[0] if zs else None
+        if zero is not None:
+            r.require(isinstance(zero, ast.Constant) and zero.value == 0 and zero.value is not False, fn, fn.loc(fv),
+                      "%s: the initial flow is not zero" % what)
+
+
+def ek_freshness_rule(r, fn, what, net_param=None, empty_result_ok=None):
+    """Residual freshness of one Edmonds-Karp copy (sites: recomputations, loop test, path searches)."""
+    ek = EK(fn)
+    cfg, fl, ff, rg, rf = ek.cfg, ek.fl, ek.ff, ek.rg, ek.rf
+    nets = set()
+    for n in ek.rec:
+        r.site(fn, n.ast, "residual_network recomputation")
+        c = n.ast.value
+        a0, a1 = arg(c, 0, "graph"), arg(c, 1, "f")
+        nets.add(ek.network_origin(n))
+        r.require(a1 is not None and norm_plain(a1) == ff, fn, fn.loc(n.ast),
+                  "%s: the residual network is derived from %s, not from the flow being updated (%s)" % (
+                      what, src(fn, a1), ff))
+        r.require(a0 is not None and rg not in names_in(a0) and rf not in names_in(a0), fn, fn.loc(n.ast),
+                  "%s: the residual network is derived from the previous residual network instead of the flow network" % what)
+    r.require(len(nets) == 1, fn, fn.loc(), "%s: residual networks are derived from different graphs: %s" % (what, sorted(nets)))
+    if net_param is not None:
+        r.require(nets <= {net_param}, fn, fn.loc(ek.rec[0].ast), "%s: the residual network is derived from %s, expected the "
+                  "flow network `%s` the function was given" % (what, sorted(nets), net_param))
+
+    def transfer(n, lab, nxt, st):
+        if n.kind in ("entry", "exit", "raise"):
+            return st
+        if ek.is_upd(n):
+            return True
+        if ek.is_rec(n) and lab != "exc":
+            return False
+        return st
+    visited, parent = explore(cfg, False, transfer)
+    r.count(len(visited))
+    reads = [n for n in cfg.nodes if n.kind not in ("entry", "exit", "raise") and ({rg, rf} & loads_of(n))]
+    if not reads:
+        raise AnchorVanished("%s: the residual graph is never read" % fn.qual)
+    done = set()
+    for (nid, st) in sorted(visited):
+        n = cfg.nodes[nid]
+        if st and any(n is x for x in reads) and nid not in done:
+            done.add(nid)
+            w = witness(cfg, parent, (nid, st))
+            r.violation(fn, fn.loc(n.ast), "%s: stale residual network: %s is read after %s was updated and before "
+                        "residual_network(..) recomputed it (path: %s)" % (
+                            what, "/".join(sorted({rg, rf} & loads_of(n))), ff, w.brief()), w)
+    apf = "augmenting_path_for(%s)" % rg
+    plain = Normaliser(Env(None, depth=0))
+
+    def fact1(n, lab):
+        f = fact_on_edge(plain, n, lab)
+        if f and f[0] in ("truth", "false") and isinstance(n.ast, ast.Name):
+            v = fl.unique_def(n, n.ast.id)[1]
+            if v is not None:
+                return (f[0], norm_plain(v), None)
+        return f
+
+    def infeasible(n, lab):
+        return n.kind == "test" and isinstance(lab, tuple) and isinstance(n.ast, ast.Constant) \
+            and bool(n.ast.value) != (lab[0] == "T")
+
+    def has_path_edge(n, lab):
+        f = fact1(n, lab)
+        return bool(f) and f[0] == "truth" and f[1] == apf
+
+    def no_path_edge(n, lab):
+        f = fact1(n, lab)
+        return infeasible(n, lab) or (bool(f) and f[0] == "false" and f[1] == apf)
+    tests = [n for n in cfg.nodes if n.kind == "test" and (fact1(n, ("T", n.ast)) or ("", ""))[1] == apf]
+    if not tests:
+        raise AnchorVanished("%s: loop test on augmenting_path_for(%s)" % (fn.qual, rg))
+    for n in tests:
+        r.site(fn, n.ast, "augmenting-path test")
+    for n in cfg.nodes:
+        for c in node_calls(n):
+            if call_tail(c) == "augmenting_path_for":
+                r.site(fn, c, "augmenting_path_for call")
+                r.require(len(c.args) == 1 and norm_plain(c.args[0]) == rg, fn, fn.loc(c),
+                          "%s: the augmenting path is searched in %s, not in the residual graph %s" % (
+                              what, src(fn, c.args[0] if c.args else None), rg))
+    # the flow is changed only along a path that the (unchanged) residual graph was just tested to have
+    seen_loops = set()
+    for u_ in ek.upd:
+        enc = enclosing_for(fn, u_.ast)
+        if not enc or id(enc[-1]) in seen_loops:
+            continue
+        seen_loops.add(id(enc[-1]))
+        hd = iter_node(cfg, enc[-1])
+        # a recomputation after the whole path was applied invalidates the test; one inside the update loop
+        # (per edge) does not change which path is being applied
+        bad = find_path_avoiding(cfg, lambda x, _h=hd: x is _h, gate_edge=has_path_edge,
+                                 kill=lambda x, _l=enc[-1]: ek.is_rec(x) and _l not in enclosing_for(fn, x.ast))
+        for (t, w) in bad:
+            r.violation(fn, fn.loc(t.ast), "%s: the flow is augmented although the current residual graph was not tested "
+                        "to contain an augmenting path" % what, w)
+    # every result is produced only after the loop test failed (or under the caller-supplied excuse)
+    outs = [n for n in cfg.find(is_return) if n.ast.value is not None]
+    if not outs:
+        raise AnchorVanished("%s: result return" % fn.qual)
+    for o in outs:
+        def gate(n, lab, _o=o):
+            return no_path_edge(n, lab) or (empty_result_ok is not None and empty_result_ok(o, n, lab))
+        bad = find_path_avoiding(cfg, lambda x, _o=o: x is _o, gate_edge=gate, kill=lambda x: ek.is_upd(x))
+        for (t, w) in bad:
+            r.violation(fn, fn.loc(t.ast), "%s: a result is returned while an augmenting path may still exist (the loop is "
+                        "not left through a failed augmenting_path_for(%s))" % (what, rg), w)
+    return ek
+
+
+def ek_helpers_rule(r, idx):
+    """augmenting_path_for / residual_network / bfs: the helpers the placement copy of Edmonds-Karp runs on."""
+    # ---- augmenting_path_for
+    ap = idx.func(HU + ":augmenting_path_for")
+    AG = first_positional_params(ap)[0]
+    acfg = ap.cfg()
+    anorm = FlowNorm(ap)
+    r.site(ap, None, "augmenting_path_for")
+    bc = calls_in_func(ap, "bfs")
+    if len(bc) != 1:
+        raise AnchorVanished("augmenting_path_for: bfs call")
+    r.require([norm_plain(a) for a in bc[0].args] == [AG, "0"], ap, ap.loc(bc[0]),
+              "the search must start at the source, bfs(%s, 0); got %s" % (AG, src(ap, bc[0])))
+    sink = norm_src("len(%s) - 1" % AG)
+    prets = [n for n in acfg.find(is_return) if isinstance(n.ast.value, ast.Name)]
+    if len(prets) != 1:
+        raise AnchorVanished("augmenting_path_for: path return")
+    bt = "bfs(%s, 0)" % AG
+    for (t, w) in find_path_avoiding(acfg, lambda x: x is prets[0],
+                                     gate_edge=fact_gate(anorm, lambda op, l, rr: op == "truth" and l == "%s[%s]" % (bt, sink))):
+        r.violation(ap, ap.loc(t.ast), "a path is returned without the sink (vertex len(%s) - 1) having been reached" % AG, w)
+    pname = prets[0].ast.value.id
+    ins = [c for c in calls_in_func(ap, "insert") if call_name(c) == pname + ".insert"] + \
+          [c for c in calls_in_func(ap, "append") if call_name(c) == pname + ".append"]
+    wl_ = [x for x in func_own_nodes(ap) if isinstance(x, ast.While)]
+    okp = len(ins) == 1 and len(wl_) == 1
+    if okp:
+        c = ins[0]
+        edge = c.args[-1]
+        wnode = acfg.find(lambda n: any(x is c for x in node_calls(n)))[0]
+        cur = None
+        if isinstance(edge, ast.Tuple) and len(edge.elts) == 2 and isinstance(edge.elts[1], ast.Name):
+            cur = edge.elts[1].id
+            okp = norm_plain(edge.elts[0]) == "bfs_tree[%s]" % cur or anorm.norm(wnode, edge.elts[0]) == "%s[%s]" % (bt, cur)
+            okp = okp and call_tail(c) == "insert" and norm_plain(c.args[0]) == "0"
+            # walk: cur starts at the sink, moves to its predecessor, stops at 0
+            steps = [n for n in acfg.stmt_nodes() if n.kind == "stmt" and isinstance(n.ast, ast.Assign)
+                     and [attr_path(t) for t in n.ast.targets] == [cur]]
+            vals = sorted(anorm.norm(n, n.ast.value) for n in steps)
+            okp = okp and vals == sorted([sink, "%s[%s]" % (bt, cur)])
+            wt = Normaliser(Env(None, depth=0)).cmp(wl_[0].test, True)
+            okp = okp and wt == ("!=", "0", cur)
+        else:
+            okp = False
+    r.require(okp, ap, ap.loc(), "the path must be rebuilt from the sink len(%s) - 1 through the BFS predecessors down to "
+              "vertex 0, as edges (predecessor, vertex) in source-to-sink order" % AG)
+
+    # ---- residual_network
+    rn = idx.func(HU + ":residual_network")
+    RG_, RF_ = first_positional_params(rn)[:2]
+    ncfg = rn.cfg()
+    nnorm = FlowNorm(rn)
+    rr = [n for n in ncfg.find(is_return) if isinstance(n.ast.value, ast.Tuple) and len(n.ast.value.elts) == 2
+          and all(isinstance(e, ast.Name) for e in n.ast.value.elts)]
+    if len(rr) != 1:
+        raise AnchorVanished("residual_network returns (graph, capacity)")
+    ng, cf = [e.id for e in rr[0].ast.value.elts]
+    nl = Flow(rn)
+    for nm in (ng, cf):
+        dn, v = nl.unique_def(rr[0], nm)
+        r.site(rn, v, "residual table %s" % nm)
+        r.require(v is not None and distinct_rows(v), rn, rn.loc(v) if v is not None else rn.loc(),
+                  "the rows of %s are not distinct objects" % nm)
+    apps = [(n, c) for n in ncfg.stmt_nodes() for c in node_calls(n) if call_tail(c) == "append"
+            and isinstance(c.func.value, ast.Subscript) and norm_plain(c.func.value.value) == ng]
+    if len(apps) != 2:
+        raise AnchorVanished("residual_network: two edge insertions")
+    lps = [x for x in func_own_nodes(rn) if isinstance(x, ast.For)]
+    outer = [l for l in lps if not enclosing_for(rn, l)]
+    inner = [l for l in lps if enclosing_for(rn, l)]
+    okl = len(outer) == 1 and len(inner) == 1 and norm_plain(outer[0].iter) == "range(len(%s))" % RG_ \
+        and norm_plain(inner[0].iter) == "%s[%s]" % (RG_, norm_plain(outer[0].target))
+    r.site(rn, outer[0] if outer else None, "edge loop")
+    r.require(okl, rn, rn.loc(), "residual_network must visit every edge (i, v): for i in range(len(%s)): for v in %s[i]" % (RG_, RG_))
+    if okl:
+        i_, v_ = norm_plain(outer[0].target), norm_plain(inner[0].target)
+        sat = "%s[%s][%s]" % (RF_, i_, v_)
+        hin = iter_node(ncfg, inner[0])
+        for (n, c) in apps:
+            r.site(rn, c, "residual edge")
+            frm, to = norm_plain(c.func.value.slice), norm_plain(c.args[0])
+            if (frm, to) == (v_, i_):
+                want = lambda op, l, rr_: op == "==" and {l, rr_} == {"1", sat}
+                what = "a reverse edge is added for an edge that carries no flow"
+            elif (frm, to) == (i_, v_):
+                want = lambda op, l, rr_: (op == "!=" and {l, rr_} == {"1", sat}) or (op == "==" and {l, rr_} == {"0", sat})
+                what = "a forward edge is kept although the edge is saturated"
+            else:
+                r.violation(rn, rn.loc(c), "residual edge %s -> %s is neither the edge (%s, %s) nor its reverse" % (frm, to, i_, v_))
+                continue
+            for (t, w) in find_path_avoiding(ncfg, lambda x, _n=n: x is _n, gate_edge=fact_gate(None, want),
+                                             kill=lambda x: x is hin):
+                r.violation(rn, rn.loc(t.ast), what, w)
+        w = body_skips(ncfg, hin, lambda x: any(x is n for (n, _c) in apps))
+        r.require(not w, rn, rn.loc(inner[0]), "an edge can vanish from the residual network")
+        # capacities: +1 in the direction of the residual edge
+        for (n, c) in apps:
+            frm, to = norm_plain(c.func.value.slice), norm_plain(c.args[0])
+            enc_if = [m for m in ncfg.stmt_nodes() if m.kind == "stmt" and isinstance(m.ast, ast.Assign)
+                      and nested_subscript(m.ast.targets[0]) and nested_subscript(m.ast.targets[0])[0] == cf]
+            same = [m for m in enc_if if same_block(rn, n.ast, m.ast)]
+            got = {(norm_plain(nested_subscript(m.ast.targets[0])[1]), norm_plain(nested_subscript(m.ast.targets[0])[2])):
+                   norm_plain(m.ast.value) for m in same}
+            r.require(got.get((frm, to)) == "1", rn, rn.loc(c),
+                      "residual capacity of the edge %s -> %s is %s, expected 1" % (frm, to, got.get((frm, to))))
+
+    bf = idx.func(HU + ":bfs")
+    BG, BS = first_positional_params(bf)[:2]
+    bcfg = bf.cfg()
+    bnorm = FlowNorm(bf)
+    pred = returned_name(bf)
+    qs = [n for n in bcfg.stmt_nodes() if n.kind == "stmt" and isinstance(n.ast, ast.Assign)
+          and isinstance(n.ast.value, ast.List) and [norm_plain(e) for e in n.ast.value.elts] == [BS]]
+    if len(qs) != 1:
+        raise AnchorVanished("bfs: queue = [s]")
+    qn = attr_path(qs[0].ast.targets[0])
+    enq = [(n, c) for n in bcfg.stmt_nodes() for c in node_calls(n)
+           if call_name(c) in (qn + ".append", qn + ".insert", qn + ".extend", qn + ".appendleft")]
+    if not enq:
+        raise AnchorVanished("bfs: enqueue")
+    lps = [x for x in func_own_nodes(bf) if isinstance(x, ast.For)]
+    whl = [x for x in func_own_nodes(bf) if isinstance(x, ast.While)]
+    deq = [(n, c) for n in bcfg.stmt_nodes() for c in node_calls(n) if call_name(c) in (qn + ".pop", qn + ".popleft")]
+    r.site(bf, deq[0][1] if deq else None, "dequeue / adjacency")
+    okq = len(deq) == 1 and len(lps) == 1 and len(whl) == 1 and isinstance(deq[0][0].ast, ast.Assign)
+    cur = attr_path(deq[0][0].ast.targets[0]) if okq else None
+    okq = okq and cur is not None and norm_plain(lps[0].iter) == "%s[%s]" % (BG, cur) \
+        and Normaliser(Env(None, depth=0)).cmp(whl[0].test, True) == ("truth", qn, None)
+    r.require(okq, bf, bf.loc(), "bfs must pop a vertex n while the queue is non-empty and scan %s[n]" % BG)
+    # colour table and WHITE
+    for (n, c) in enq:
+        r.site(bf, c, "enqueue")
+        v = norm_plain(c.args[-1]) if c.args else "?"
+        # colour test
+        colour = None
+        white = None
+        for t in bcfg.nodes:
+            if t.kind == "test":
+                f = bnorm.edge_fact(t, ("T", t.ast))
+                if f and f[0] == "==":
+                    for side, other in ((f[1], f[2]), (f[2], f[1])):
+                        m_ = re.match(r"^(\w+)\[%s\]$" % re.escape(v), side or "")
+                        if m_:
+                            colour, white = m_.group(1), other
+        if not r.require(colour is not None, bf, bf.loc(c), "vertex %s is enqueued without any colour test" % v):
+            continue
+        r.require(white == "0" or white == "WHITE", bf, bf.loc(c), "the colour compared with is %s, not WHITE" % white)
+        init = Flow(bf).unique_def(qs[0], colour)[1]
+        wname = None
+        okw = isinstance(init, ast.ListComp) and norm_plain(init.generators[0].iter) == "range(len(%s))" % BG
+        if okw:
+            wname = bnorm.norm(qs[0], init.elt)
+            okw = wname == white
+        r.require(okw, bf, bf.loc(init) if init is not None else bf.loc(),
+                  "every vertex of %s must start WHITE (%s) in %s" % (BG, white, colour))
+        gate = fact_gate(bnorm, lambda op, l, rr, _c=colour, _v=v, _w=white: op == "==" and {l, rr} == {"%s[%s]" % (_c, _v), _w})
+        kill_v = lambda x, _v=v: (x.kind == "iter" and _v in node_stores(x))
+        for (t, w) in find_path_avoiding(bcfg, lambda x, _n=n: x is _n, gate_edge=gate, kill=kill_v):
+            r.violation(bf, bf.loc(t.ast), "vertex %s can be enqueued although it is not WHITE (a vertex could be visited "
+                        "twice and its predecessor overwritten: the path walk may cycle)" % v, w)
+
+        def recolours(x, _c=colour, _v=v, _w=white):
+            if x.kind == "stmt" and isinstance(x.ast, ast.Assign) and len(x.ast.targets) == 1:
+                t = x.ast.targets[0]
+                return isinstance(t, ast.Subscript) and norm_plain(t.value) == _c and norm_plain(t.slice) == _v \
+                    and bnorm.norm(x, x.ast.value) != _w
+            return False
+
+        def sets_pred(x, _v=v):
+            if x.kind == "stmt" and isinstance(x.ast, ast.Assign) and len(x.ast.targets) == 1:
+                t = x.ast.targets[0]
+                return isinstance(t, ast.Subscript) and norm_plain(t.value) == pred and norm_plain(t.slice) == _v \
+                    and norm_plain(x.ast.value) == cur
+            return False
+        for (what, g_) in (("coloured non-WHITE", recolours), ("given its predecessor %s[%s] = %s" % (pred, v, cur), sets_pred)):
+            for (t, w) in find_path_avoiding(bcfg, lambda x, _n=n: x is _n, gate_node=g_, kill=kill_v):
+                r.violation(bf, bf.loc(t.ast), "vertex %s is enqueued without having been %s" % (v, what), w)
+    # predecessor table
+    pinit = Flow(bf).unique_def(qs[0], pred)[1]
+    r.require(isinstance(pinit, ast.ListComp) and isinstance(pinit.elt, ast.Constant) and pinit.elt.value is None
+              and norm_plain(pinit.generators[0].iter) == "range(len(%s))" % BG, bf, bf.loc(),
+              "the predecessor table must start as None for every vertex (augmenting_path_for tests the sink's entry)")
 
 
 def run(ctx: Context):
@@ -1307,6 +1824,73 @@ def run(ctx: Context):
                                 and x.func.value.id == nm and x.func.attr in ("add", "update") and id(x) not in flagged:
                             flagged.add(id(x))
                             r.violation(sp, sp.loc(m.ast), "server added to the candidate set `%s` by %s" % (nm, src(sp, x)))
+
+
+    # ------------------------------------------------------------------ 6
+    with ctx.rule("C07.6", "R5", "the matching that becomes the placement is augmented skew-symmetrically: for each edge "
+                  "(u, v) of the augmenting path _compute_maximum_graph does flow[u][v] += d and flow[v][u] -= d, in every "
+                  "iteration, with d = the bottleneck of that path; flow matrix rows are distinct, len(graph) wide, zero",
+                  expected=4) as r:
+        ek_update_rule(r, idx.func(MAXG), "placement matching")
+
+    # ------------------------------------------------------------------ 7
+    with ctx.rule("C07.7", "R2", "residual freshness of the placement matching: after a store into the flow table the pair "
+                  "(residual_graph, residual_function) is recomputed from (graph, flow) before it is read again (loop "
+                  "test, path search, delta, read-back); test and search use that graph; results only after the test "
+                  "failed; the read-back reads that residual graph", expected=5) as r:
+        mg = idx.func(MAXG)
+        G, SI = first_positional_params(mg)[:2]
+
+        def empty_ok(o, n, lab, _G=G):
+            """`return {}` / `return None` is allowed under `graph == []` / `not graph` / `len(graph) == 0`."""
+            v = o.ast.value
+            if not ((isinstance(v, ast.Dict) and not v.keys) or (isinstance(v, ast.Call) and call_name(v) == "dict"
+                                                                  and not v.args and not v.keywords)):
+                return False
+            f = fact_on_edge(Normaliser(Env(None, depth=0)), n, lab)
+            if not f:
+                return False
+            op, l, rr = f
+            return (op == "false" and l == _G) or (op == "==" and {l, rr} in ({"[]", _G}, {"0", "len(%s)" % _G}))
+        ek = ek_freshness_rule(r, mg, "placement matching", net_param=G, empty_result_ok=empty_ok)
+        # the read-back decides matched / unmatched from the residual graph (not from the flow network)
+        mnorm = FlowNorm(mg)
+        mcfg = mg.cfg()
+        out = returned_name(mg)
+        mloops = loops_over(mg, SI)
+        if len(mloops) != 1 or not isinstance(mloops[0].target, ast.Name):
+            raise AnchorVanished("_compute_maximum_graph: loop over %s" % SI)
+        sv = mloops[0].target.id
+        mhead = iter_node(mcfg, mloops[0])
+        r.site(mg, mloops[0], "read-back loop")
+        mst = [(n, key, val) for n in mcfg.stmt_nodes() for (_k, key, val) in container_stores(n, out)
+               if n.kind == "stmt" and mloops[0] in enclosing_for(mg, n.ast)]
+        if not mst:
+            raise AnchorVanished("_compute_maximum_graph: read-back stores into %s" % out)
+        want_row = "%s[%s]" % (ek.rg, sv)
+        for (n, key, val) in mst:
+            is_none = isinstance(val, ast.Constant) and val.value is None
+            if not is_none:
+                vn = mnorm.norm(n, val)
+                r.require(vn == want_row + "[0]", mg, mg.loc(n.ast), "the server of share %s is read as %s; expected %s[0] - the "
+                          "reversed (saturated) edge of the residual graph" % (sv, vn, want_row))
+
+            def row_fact(op, l, rr, _eq=is_none):
+                return op == ("==" if _eq else "!=") and want_row in (l, rr)
+            bad = find_path_avoiding(mcfg, lambda x, _n=n: x is _n, gate_edge=fact_gate(mnorm, row_fact),
+                                     kill=lambda x: x is mhead)
+            r.count(len(mcfg.nodes))
+            for (t, w2) in bad:
+                r.violation(mg, mg.loc(t.ast), "share %s is %s without a comparison of its residual row %s (a table other than "
+                            "the residual graph does not show which edges carry flow)" % (
+                                sv, "declared unmatched" if is_none else "read as matched", want_row), w2)
+
+    # ------------------------------------------------------------------ 8
+    with ctx.rule("C07.8", "R5", "helpers the placement matching runs on: augmenting_path_for searches from vertex 0 to "
+                  "len(graph) - 1 and rebuilds the path from the BFS predecessors; residual_network reverses exactly the "
+                  "saturated edges with capacity 1 and distinct rows; bfs enqueues a vertex only when WHITE, after "
+                  "colouring it and recording its predecessor", expected=8) as r:
+        ek_helpers_rule(r, idx)
 
 
 def reach_from_within(cfg, a, b, head) -> bool:
